@@ -45,7 +45,6 @@ pub fn c08_q_add_word_all_u16() {
 
 /// add_bit from every partial-frame state, twelve more bits (crossing a frame boundary), clear.
 #[kani::proof]
-#[kani::unwind(300)]
 pub fn c08_q_add_bit_any_state() {
     let k: u8 = kani::any();
     kani::assume(k <= 10);
@@ -85,7 +84,6 @@ pub fn c08_q_modifier_predicates() {
 
 /// Whole Keyboard: any bytes / bits / events / clear in sequence from new (both sets).
 #[kani::proof]
-#[kani::unwind(300)]
 pub fn c08_q_keyboard_mixed_ops() {
     let mut kb2 = Keyboard::new(ScancodeSet2::default(), AnyLayout::Jis109Key(Jis109Key), any_mode());
     let mut kb1 = Keyboard::new(ScancodeSet1::default(), AnyLayout::Azerty(Azerty), any_mode());
@@ -118,7 +116,6 @@ pub fn c08_q_keyboard_mixed_ops() {
 macro_rules! c08_kb_any_state {
     ($name:ident, $set:ty, $ctx:ident, $n:expr) => {
         #[kani::proof]
-        #[kani::unwind(300)]
         pub fn $name() {
             let k: u8 = kani::any();
             kani::assume(k <= 10);
@@ -177,7 +174,6 @@ crate::for_layouts!(c08_layout);
 
 /// Thorough: four symbolic bytes from new() through each decoder (any stream of length 4).
 #[kani::proof]
-#[kani::unwind(300)]
 pub fn c08_t_streams4() {
     let mut s2 = ScancodeSet2::new();
     let mut s1 = ScancodeSet1::new();
